@@ -717,6 +717,106 @@ pub extern "C" fn cs_w_publish_swap() {
     merge();
 }
 
+// ------------------------------------------------------------------ C04 on an Option container (null is a value)
+
+pub type ASO = ArcSwapAny<Option<VPtr>>;
+pub static CX_O: SCell<Option<ASO>> = SCell::new(None);
+const NONE_IDX: usize = 9;
+
+#[inline(always)]
+fn o() -> &'static ASO {
+    CX_O.get().as_ref().unwrap()
+}
+#[inline(always)]
+fn rec_opt(x: &Option<VPtr>, id: u32) -> usize {
+    match x {
+        None => NONE_IDX,
+        Some(v) => check_payload(v, id),
+    }
+}
+/// O = Some(obj0); the harness keeps one handle to every pool object
+#[no_mangle]
+pub extern "C" fn cs_setup_opt() {
+    for i in 0..POOL {
+        *CX_POOL[i].mu() = Some(VPtr::create(i, 10 + i as u64));
+    }
+    *CX_O.mu() = Some(ASO::new(Some(pool(0).clone())));
+}
+/// "take": swap(None), recording what came out
+#[no_mangle]
+pub extern "C" fn cs_w_take_r0() {
+    let x = o().swap(None);
+    *CX_RES[0].mu() = rec_opt(&x, 22);
+    drop(x);
+}
+#[no_mangle]
+pub extern "C" fn cs_w_take_r1() {
+    let x = o().swap(None);
+    *CX_RES[1].mu() = rec_opt(&x, 23);
+    drop(x);
+}
+#[no_mangle]
+pub extern "C" fn cs_w_optswap1_r1() {
+    let x = o().swap(Some(pool(1).clone()));
+    *CX_RES[1].mu() = rec_opt(&x, 23);
+    drop(x);
+}
+/// store(None) racing a swap: store is drop(swap()), nothing to record
+#[no_mangle]
+pub extern "C" fn cs_w_optstore_none() {
+    o().store(None);
+    *CX_RES[0].mu() = usize::MAX;
+}
+fn opt_final(puts: [usize; 2], unknown_first: bool) {
+    let g = o().load();
+    let f = rec_opt(&g, 41);
+    drop(g);
+    let x = *CX_RES[0].get();
+    let y = *CX_RES[1].get();
+    // values that went in: obj0 (initially) and `puts`; values that came out: x, y and what is left (f).
+    // Each one exactly once: compare the two multisets over {obj0..obj3, None}.
+    let mut inn = [0usize; 10];
+    let mut out = [0usize; 10];
+    inn[0] += 1;
+    inn[puts[0]] += 1;
+    inn[puts[1]] += 1;
+    out[f] += 1;
+    out[y] += 1;
+    if unknown_first {
+        // thread 1 used store(): its previous value was dropped inside, so it is whatever is missing
+        let mut miss = 0;
+        for i in 0..10 {
+            vassert(out[i] <= inn[i], 66);
+            miss += inn[i] - out[i];
+        }
+        vassert(miss == 1, 67);
+    } else {
+        out[x] += 1;
+        for i in 0..10 {
+            vassert(out[i] == inn[i], 66);
+        }
+    }
+    // counts: the pool handle, plus one if the container still holds it; nothing else survives
+    for i in 0..POOL {
+        let want = 1 + if f == i { 1 } else { 0 };
+        vassert(count_of_gated(i) == want, 50 + i as u32);
+    }
+    vassert(slots_all_empty(), 42);
+    cover(13);
+}
+#[no_mangle]
+pub extern "C" fn cs_final_opt_take2() {
+    opt_final([NONE_IDX, NONE_IDX], false);
+}
+#[no_mangle]
+pub extern "C" fn cs_final_opt_clear() {
+    opt_final([NONE_IDX, 1], false);
+}
+#[no_mangle]
+pub extern "C" fn cs_final_opt_store() {
+    opt_final([NONE_IDX, 1], true);
+}
+
 // ------------------------------------------------------------------ finals
 
 fn expect_counts(stored_a: usize, stored_b: usize) {
